@@ -1,0 +1,117 @@
+//go:build verif
+
+// Contracts for package oauth2, checked by /verif/govc (see /verif/DESIGN.md).
+// Comment-only: this file adds no code to the package.
+package oauth2
+
+// ---------------------------------------------------------------- storage interfaces (abstract store)
+//
+// Every method either has its documented effect, or fails. A failure of a documented class says what it
+// says about the store; any other failure ("unexpected") leaves the store unchanged and counts a fault.
+// These contracts are assumed at every call through the interface.
+
+//@ interface AuthorizeCodeStorage.CreateAuthorizeCodeSession
+//@   modifies code_exists, code_active, code_rid, code_client, code_req, stored, faults
+//@   ensures err == nil ==> code_exists == upd(old(code_exists), code, true) && code_active == upd(old(code_active), code, true) && code_rid == upd(old(code_rid), code, request.GetID()) && code_client == upd(old(code_client), code, request.GetClient().GetID()) && code_req == upd(old(code_req), code, request) && stored == upd(old(stored), request, true) && faults == old(faults)
+//@   ensures err != nil ==> codes_unchanged() && stored == old(stored) && faults == old(faults) + 1
+
+//@ interface AuthorizeCodeStorage.GetAuthorizeCodeSession
+//@   modifies faults
+//@   ensures err == nil ==> code_exists[code] && code_active[code] && request != nil && request == code_req[code] && request.GetID() == code_rid[code] && request.GetClient() != nil && request.GetClient().GetID() == code_client[code] && (stored[request] || fresh(request)) && faults == old(faults)
+//@   ensures err != nil && eis(err, fosite.ErrInvalidatedAuthorizeCode) ==> code_exists[code] && !code_active[code] && faults == old(faults) && request == code_req[code] && (request != nil ==> request.GetID() == code_rid[code] && (stored[request] || fresh(request)))
+//@   ensures err != nil && !eis(err, fosite.ErrInvalidatedAuthorizeCode) && eis(err, fosite.ErrNotFound) ==> !code_exists[code] && faults == old(faults)
+//@   ensures err != nil && !eis(err, fosite.ErrInvalidatedAuthorizeCode) && !eis(err, fosite.ErrNotFound) ==> faults == old(faults) + 1
+
+//@ interface AuthorizeCodeStorage.InvalidateAuthorizeCodeSession
+//@   modifies code_active, faults
+//@   ensures err == nil ==> code_active == upd(old(code_active), code, false) && faults == old(faults)
+//@   ensures err != nil ==> code_active == old(code_active) && faults == old(faults) + 1
+
+//@ interface AccessTokenStorage.CreateAccessTokenSession
+//@   modifies acc_exists, acc_rid, acc_client, acc_req, stored, faults
+//@   ensures err == nil ==> acc_exists == upd(old(acc_exists), signature, true) && acc_rid == upd(old(acc_rid), signature, request.GetID()) && acc_client == upd(old(acc_client), signature, request.GetClient().GetID()) && acc_req == upd(old(acc_req), signature, request) && stored == upd(old(stored), request, true) && faults == old(faults)
+//@   ensures err != nil ==> access_unchanged() && stored == old(stored) && faults == old(faults) + 1
+
+//@ interface AccessTokenStorage.GetAccessTokenSession
+//@   modifies faults
+//@   ensures err == nil ==> acc_exists[signature] && request != nil && request == acc_req[signature] && request.GetID() == acc_rid[signature] && request.GetClient() != nil && request.GetClient().GetID() == acc_client[signature] && (stored[request] || fresh(request)) && faults == old(faults)
+//@   ensures err != nil && eis(err, fosite.ErrNotFound) ==> !acc_exists[signature] && faults == old(faults)
+//@   ensures err != nil && !eis(err, fosite.ErrNotFound) ==> faults == old(faults) + 1
+
+//@ interface AccessTokenStorage.DeleteAccessTokenSession
+//@   modifies acc_exists, faults
+//@   ensures err == nil ==> acc_exists == upd(old(acc_exists), signature, false) && faults == old(faults)
+//@   ensures err != nil ==> acc_exists == old(acc_exists) && faults == old(faults) + 1
+
+//@ interface RefreshTokenStorage.CreateRefreshTokenSession
+//@   modifies ref_exists, ref_active, ref_rid, ref_client, ref_acc, ref_req, stored, faults
+//@   ensures err == nil ==> ref_exists == upd(old(ref_exists), signature, true) && ref_active == upd(old(ref_active), signature, true) && ref_rid == upd(old(ref_rid), signature, request.GetID()) && ref_client == upd(old(ref_client), signature, request.GetClient().GetID()) && ref_acc == upd(old(ref_acc), signature, accessSignature) && ref_req == upd(old(ref_req), signature, request) && stored == upd(old(stored), request, true) && faults == old(faults)
+//@   ensures err != nil ==> refresh_unchanged() && stored == old(stored) && faults == old(faults) + 1
+
+//@ interface RefreshTokenStorage.GetRefreshTokenSession
+//@   modifies faults
+//@   ensures err == nil ==> ref_exists[signature] && ref_active[signature] && request != nil && request == ref_req[signature] && request.GetID() == ref_rid[signature] && request.GetClient() != nil && request.GetClient().GetID() == ref_client[signature] && (stored[request] || fresh(request)) && faults == old(faults)
+//@   ensures err != nil && eis(err, fosite.ErrInactiveToken) ==> ref_exists[signature] && !ref_active[signature] && request != nil && request == ref_req[signature] && request.GetID() == ref_rid[signature] && (stored[request] || fresh(request)) && faults == old(faults)
+//@   ensures err != nil && !eis(err, fosite.ErrInactiveToken) && eis(err, fosite.ErrNotFound) ==> !ref_exists[signature] && faults == old(faults)
+//@   ensures err != nil && !eis(err, fosite.ErrInactiveToken) && !eis(err, fosite.ErrNotFound) ==> faults == old(faults) + 1
+
+//@ interface RefreshTokenStorage.DeleteRefreshTokenSession
+//@   modifies ref_exists, faults
+//@   ensures err == nil ==> ref_exists == upd(old(ref_exists), signature, false) && faults == old(faults)
+//@   ensures err != nil ==> ref_exists == old(ref_exists) && faults == old(faults) + 1
+
+// Revocation by request id, as the interface documents it.
+//@ interface TokenRevocationStorage.RevokeAccessToken
+//@   modifies acc_exists, faults
+//@   ensures err == nil ==> (forall s string :: acc_exists[s] == (old(acc_exists[s]) && acc_rid[s] != requestID)) && faults == old(faults)
+//@   ensures err != nil ==> acc_exists == old(acc_exists) && faults == old(faults) + 1
+
+//@ interface TokenRevocationStorage.RevokeRefreshToken
+//@   modifies ref_active, faults
+//@   ensures err == nil ==> (forall s string :: ref_active[s] == (old(ref_active[s]) && !(ref_exists[s] && ref_rid[s] == requestID))) && faults == old(faults)
+//@   ensures err != nil ==> ref_active == old(ref_active) && faults == old(faults) + 1
+
+//@ interface RefreshTokenStorage.RotateRefreshToken
+//@   modifies ref_active, acc_exists, faults
+//@   ensures err == nil ==> (forall s string :: ref_active[s] == (old(ref_active[s]) && !(ref_exists[s] && ref_rid[s] == requestID))) && (forall s string :: acc_exists[s] == (old(acc_exists[s]) && acc_rid[s] != requestID)) && faults == old(faults)
+//@   ensures err != nil ==> ref_active == old(ref_active) && acc_exists == old(acc_exists)
+//@   ensures err != nil && !eis(err, fosite.ErrSerializationFailure) && !eis(err, fosite.ErrNotFound) && !eis(err, fosite.ErrInactiveToken) ==> faults == old(faults) + 1
+//@   ensures err != nil && (eis(err, fosite.ErrSerializationFailure) || eis(err, fosite.ErrNotFound) || eis(err, fosite.ErrInactiveToken)) ==> faults == old(faults)
+
+// ---------------------------------------------------------------- strategies
+// Signatures are pure functions of the token string. Validation has no effect on the store; its verdict
+// is left open here (it is decided by the strategy's own contract, see C06/C07).
+//@ pureiface oauth2.AuthorizeCodeStrategy.AuthorizeCodeSignature oauth2.AccessTokenStrategy.AccessTokenSignature oauth2.RefreshTokenStrategy.RefreshTokenSignature
+//@ interface AuthorizeCodeStrategy.ValidateAuthorizeCode
+//@ interface AuthorizeCodeStrategy.GenerateAuthorizeCode
+//@ interface AccessTokenStrategy.ValidateAccessToken
+//@ interface AccessTokenStrategy.GenerateAccessToken
+//@   ensures err == nil ==> signature == recv.AccessTokenSignature(ctx, token)
+//@ interface RefreshTokenStrategy.ValidateRefreshToken
+//@ interface RefreshTokenStrategy.GenerateRefreshToken
+//@   ensures err == nil ==> signature == recv.RefreshTokenSignature(ctx, token)
+
+// ---------------------------------------------------------------- C01 / C02: authorization-code redemption
+
+//@ func (*AuthorizeExplicitGrantHandler).CanHandleTokenEndpointRequest
+//@   pure
+//@   ensures result == requester.GetGrantTypes().ExactOne("authorization_code")
+
+//@ func (*AuthorizeExplicitGrantHandler).HandleTokenEndpointRequest
+//@   let code = formget(old(request.GetRequestForm()), "code")
+//@   let sig  = old(c.AuthorizeCodeStrategy.AuthorizeCodeSignature(ctx, code))
+//@   let used = old(code_exists[sig]) && !old(code_active[sig])
+//@   let rid  = old(code_rid[sig])
+//@   requires c != nil && request != nil && !stored[request]
+//@   modifies acc_exists, ref_active, faults
+//@   ensures [C01.replay-refused] used ==> err != nil
+//@   ensures [C01.replay-error-class] used && c.CanHandleTokenEndpointRequest(ctx, request) && old(request.GetClient().GetGrantTypes()).Has("authorization_code") ==> ekind(err) == "invalid_grant" || ekind(err) == "server_error"
+//@   ensures [C01.replay-invalid-grant-unless-fault] used && c.CanHandleTokenEndpointRequest(ctx, request) && old(request.GetClient().GetGrantTypes()).Has("authorization_code") && faults == old(faults) && old(code_req[sig]) != nil ==> ekind(err) == "invalid_grant"
+//@   ensures [C01.replay-revokes-access] used && ekind(err) == "invalid_grant" && faults == old(faults) ==> (forall s string :: old(acc_exists[s]) && acc_rid[s] == rid ==> !acc_exists[s])
+//@   ensures [C01.replay-revokes-refresh] used && ekind(err) == "invalid_grant" && faults == old(faults) ==> (forall s string :: ref_exists[s] && ref_rid[s] == rid ==> !ref_active[s])
+//@   ensures [C01.handle-issues-nothing] (forall s string :: acc_exists[s] ==> old(acc_exists[s])) && (forall s string :: ref_active[s] ==> old(ref_active[s]))
+//@   ensures [C02.client-bound] err == nil ==> old(code_client[sig]) == request.GetClient().GetID()
+//@   ensures [C02.redirect-bound] err == nil && formget(old(code_req[sig]).GetRequestForm(), "redirect_uri") != "" ==> formget(old(code_req[sig]).GetRequestForm(), "redirect_uri") == formget(request.GetRequestForm(), "redirect_uri")
+//@   ensures [C02.success-needs-live-code] err == nil ==> old(code_exists[sig]) && old(code_active[sig])
+//@   ensures [C02.grant-overrides-request] err == nil ==> request.GetID() == rid && request.GetRequestedScopes() == old(code_req[sig]).GetRequestedScopes() && request.GetRequestedAudience() == old(code_req[sig]).GetRequestedAudience() && request.GetSession() == old(code_req[sig]).GetSession()
+//@   ensures [C02.failed-attempt-leaves-code] code_exists == old(code_exists) && code_active == old(code_active)
